@@ -242,6 +242,24 @@ Definition ks_empty (bs : nat) (s : kst) (f : fault) : kst * bool :=
   | (j, true) => ({| k_j := j; k_synced := sync_if (negb (fails_sync f)) j (k_synced s); k_size := 0 |}, true)
   end.
 
+(* ---- histories of state-changing operations ---------------------------- *)
+Inductive kop :=
+| KPut (ks : list mhk) (f : fault)
+| KDel (ks : list mhk) (f : fault)
+| KEmpty (f : fault)
+| KRestart
+| KCrash (back : nat).
+
+Definition kstep (pb bs : nat) (s : kst) (o : kop) : kst :=
+  match o with
+  | KPut ks f => fst (ks_put pb s ks f)
+  | KDel ks f => fst (ks_delete pb s ks f)
+  | KEmpty f => fst (ks_empty bs s f)
+  | KRestart => ks_restart s
+  | KCrash back => ks_crash s back
+  end.
+Definition krun (pb bs : nat) (s : kst) (ops : list kop) : kst := fold_left (kstep pb bs) ops s.
+
 (* ---- queries ----------------------------------------------------------- *)
 (* decodeKey + IsPrefix on one result row.  The size key cannot be decoded:
    with pb = 0 (the only configuration in which a long prefix query returns
